@@ -104,7 +104,7 @@ Section GeoProofs.
     { unfold M_Geo.tie_lons. rewrite map_length. apply nth_error_Some. congruence. }
     assert (Kla : (k < length (tie_lats l))%nat).
     { unfold M_Geo.tie_lats. rewrite map_length. apply nth_error_Some. congruence. }
-    specialize (N k c Hk Klo Kla).
+    specialize (N k c Hk Hcw Klo Kla).
     rewrite (nth_error_nth' _ (0%Q, 0%Q)) by (rewrite W; lia).
     rewrite N. cbn [option_map]. unfold M_Geo.mask_px. rewrite Hf. cbn [fst snd].
     assert (E1 : nth k (tie_lons l) 0%Q = scale lon_div wlo).
@@ -146,3 +146,56 @@ Section GeoProofs.
   Lemma keep_in_range : forall lim v, (Qabs v <= lim)%Q -> keep lim v = Some v.
   Proof. intros lim v H. unfold keep. apply Qle_bool_iff in H. rewrite H. reflexivity. Qed.
 End GeoProofs.
+
+(* ---------------- the interpolator's contract is satisfiable: a step interpolator (each pixel takes the tie point of
+   the last tie column at or before it, the first tie point in front of the first column) meets it ---------------- *)
+Section StepInterpolator.
+  Variable cols : list Z.
+  Variable width : Z.
+
+  Fixpoint last_le (c : Z) (cs : list Z) (k : nat) (acc : nat) : nat :=
+    match cs with
+    | [] => acc
+    | c0 :: r => last_le c r (S k) (if c0 <=? c then k else acc)
+    end.
+
+  Definition step_row (lo la : list Q) : list (Q * Q) :=
+    map (fun c => let k := last_le (Z.of_nat c) cols 0 0 in (nth k lo 0%Q, nth k la 0%Q)) (seq 0 (Z.to_nat width)).
+  Definition step_interp (ties : list (list Q * list Q)) : list (list (Q * Q)) :=
+    map (fun p => step_row (fst p) (snd p)) ties.
+
+  (* strictly increasing, non-negative columns *)
+  Fixpoint increasing (prev : Z) (cs : list Z) : Prop :=
+    match cs with [] => True | c :: r => prev < c /\ increasing c r end.
+
+  Lemma last_le_above : forall cs c k acc prev, increasing prev cs -> c <= prev -> last_le c cs k acc = acc.
+  Proof.
+    induction cs as [|c0 r IH]; intros c k acc prev Hi Hc; [reflexivity|]. cbn [last_le]. destruct Hi as [H1 H2].
+    destruct (Z.leb_spec c0 c); [lia|]. apply (IH c (S k) acc c0 H2). lia.
+  Qed.
+
+  Lemma last_le_at : forall cs k0 acc prev k c, increasing prev cs -> nth_error cs k = Some c ->
+    last_le c cs k0 acc = (k0 + k)%nat.
+  Proof.
+    induction cs as [|c0 r IH]; intros k0 acc prev k c Hi Hk; [destruct k; discriminate|]. destruct Hi as [H1 H2].
+    destruct k as [|k]; cbn [nth_error] in Hk.
+    - injection Hk as ->. cbn [last_le]. rewrite Z.leb_refl. rewrite (last_le_above r c (S k0) k0 c H2) by lia. lia.
+    - cbn [last_le]. rewrite (IH (S k0) _ c0 k c H2 Hk). lia.
+  Qed.
+
+  Theorem step_interp_contract : increasing (-1) cols -> interp_contract cols width step_interp.
+  Proof.
+    intros Hinc ties. split; [unfold step_interp; apply map_length|].
+    intros i lo la Hi.
+    assert (E : nth i (step_interp ties) [] = step_row lo la).
+    { apply nth_error_nth_default. unfold step_interp. rewrite nth_error_map, Hi. reflexivity. }
+    rewrite E. split; [unfold step_row; rewrite map_length, seq_length; reflexivity|].
+    intros k c Hk [Hc0 Hw] Klo Kla.
+    unfold step_row.
+    rewrite (nth_error_nth_default _ _ (Z.to_nat c)
+               (let k' := last_le (Z.of_nat (Z.to_nat c)) cols 0 0 in (nth k' lo 0%Q, nth k' la 0%Q))).
+    - cbv zeta. rewrite Z2Nat.id by exact Hc0. rewrite (last_le_at cols 0 0 (-1) k c Hinc Hk). reflexivity.
+    - rewrite nth_error_map. rewrite (nth_error_nth' _ 0%nat) by (rewrite seq_length; lia).
+      rewrite seq_nth by lia. reflexivity.
+  Qed.
+End StepInterpolator.
